@@ -223,3 +223,28 @@ for w in ("funsimavg", "funsimmax", "bma"):
         H("C05", "similarity", "c05_%s_%s" % (w, d), tier="thorough", mem="medium", tt=3600, deep=(d == "3x3"), bounds="%s, entries k/8" % d)
 H("C05", "similarity", "c05_empty_matrix_is_zero", bounds="0xN / Nx0, N <= 3")
 H("C05", "similarity", "c05_twin_must_fail", expect="fail")
+
+# ------------------------------------------------------------------------------------------------
+# C17
+# ------------------------------------------------------------------------------------------------
+PROPERTIES["C17"] = dict(
+    functions=["utils::Combinations::new/next/set_to_last", "Linkage::size_of_cluster", "Linkage::indicies", "ClusterVec::push/get/iter", "Cluster::new/lhs/rhs/len"],
+    bounds="Combinations over 0..=4 slots (quick <= 3): ONE next() call from every concrete cursor position reachable from new()/set_to_last(), "
+           "dead/live pattern symbolic (one-step induction; whole enumerations with a symbolic pattern explode: 3 recursive call sites per level); "
+           "Linkage bookkeeping on directly built dendrograms over 3-4 inputs",
+    stubs=["std::hash::RandomState::new -> fixed keys (empty distance matrix)"],
+    outside="Linkage::{single,complete,average,union} merge loops (HashMap<(usize,usize),f32> with insert/retain/iter: out of reach beyond "
+            "capped attempts); n >= 5; ties between distances",
+    assumptions=[],
+)
+for n in (0, 1, 2, 3):
+    H("C17", "utils", "c17_combinations_steps_len%d" % n, tq=900, mem="medium", bounds="%d slots, any dead/live pattern, one next() from every cursor reachable from new()" % n, inputs="[bool;%d]" % n)
+H("C17", "utils", "c17_combinations_steps_len4", tier="thorough", mem="heavy", tt=3600, deep=True, bounds="4 slots, any dead/live pattern, every cursor")
+for n in (1, 2, 3):
+    H("C17", "utils", "c17_last_row_steps_len%d" % n, tq=900, mem="medium", bounds="%d slots, any pattern, one next() from every cursor reachable after set_to_last()" % n, inputs="[bool;%d]" % n)
+H("C17", "utils", "c17_last_row_steps_len4", tier="thorough", mem="medium", tt=3600, deep=True, bounds="4 slots after set_to_last")
+H("C17", "utils", "c17_combinations_whole_len1", bounds="1 slot, whole enumeration")
+H("C17", "utils", "c17_exhausted_stays_exhausted", bounds="3 slots any content, any cursor with idx1 in 3..1000")
+H("C17", "linkage", "c17_size_of_cluster", bounds="4 inputs, 2 recorded merges with symbolic sizes; any index pair < 6")
+H("C17", "linkage", "c17_indicies_leaf_order", bounds="all dendrograms over 3 inputs")
+H("C17", "utils", "c17_twin_must_fail", expect="fail")
